@@ -23,6 +23,10 @@ RULE = (
 RULE += (
     ' Added after seeded round 9: decoy requests that switch every optional term on while the checked request omits it (sparse dicts leave default-valued keys out); every fifth case with halo ids 2^60 + odd.'
 )
+RULE += (
+    ' Added after seeded round 10: call histories in one process (6-8 requests in a row through the same tracer dict objects: another params z with redshift-evolving thresholds on every tracer, other tables, '
+    'equal-valued fresh dicts, a value edited in place and restored, a tracer dropped and re-added, rsd / enable_ranks / origin / velz2kms / Nthread toggled, the first request repeated at the end); every request compared with the reference for ITS inputs.'
+)
 ASSUMPTIONS = [
     'a random number within 1e-11 (relative) of a slice edge is ambiguous; such draws are re-drawn by the generator, planted ones sit at 1e-9 and are decisive',
     'ids, masses and unshifted coordinates compared exactly; velocities and RSD-shifted coordinates at 1e-11 relative (fastmath)',
@@ -258,6 +262,8 @@ def check(run):
         if run.too_many():
             return
     end_to_end(run, GH, ref)
+    if not run.too_many():
+        call_history(run, GH, ref)
 
 
 def end_to_end(run, GH, ref):
@@ -343,6 +349,103 @@ def end_to_end(run, GH, ref):
                         run.violation('hod-e2e-file-differs-from-returned', dict(tracer=t, column='Ncent (meta)', file=int(tab.meta.get('Ncent', -1)), expected=int(ncent_ret), **desc))
         finally:
             shutil.rmtree(truth['root'], ignore_errors=True)
+
+
+def call_history(run, GH, ref):
+    """Several requests in a row in one process, each differing from the previous one in ONE respect, most of them outside
+    the tracers' HOD dicts (params['z'] with z-evolving thresholds, the tables, rsd / enable_ranks / origin / velz2kms / Nthread),
+    some inside (a value edited in place in the very dict object passed before; equal-valued fresh dicts; a tracer dropped and
+    re-added).  Every request must follow the rule for ITS inputs: each output is compared with the reference computed afresh from a
+    pristine copy of that request's inputs, so anything a previous request left behind (parsed parameters, thresholds, buffers, edits to
+    the caller's dicts) shows as a wrong row."""
+    import copy
+
+    rng = run.rng(10)
+    nseq = 8 if run.quick else 150
+    zgrid = [0.1, 0.3, 0.5, 0.8, 1.1, 1.4, 2.0]
+    for s in range(nseq):
+        lbox = float(rng.choice([500.0, 2000.0, 250.5]))
+        H, P = [300, 120, 1003][s % 3], [2000, 600, 5000][(s // 2) % 3]
+        tabs = [hodref.gen_tables(rng, H, P, lbox=lbox, with_env=True), hodref.gen_tables(rng, max(H // 2, 1), P // 2, lbox=lbox, with_env=True)]
+        sub = SUBSETS[(s * 3 + 6) % 7]  # all three tracers first
+        live = hodref.gen_tracers(rng, sub, fancy=[True, 'sparse'][s % 2])
+        for tname, t in live.items():
+            # every tracer's thresholds evolve with redshift, by up to ~1.5 dex over the redshifts requested
+            t.update(z_pivot=float(rng.choice([0.8, 0.2, 0.5])), logM_cut_pr=float(rng.uniform(0.5, 3.0) * rng.choice([-1, 1])), logM1_pr=float(rng.uniform(0.5, 3.0) * rng.choice([-1, 1])))
+            if tname == 'ELG' and s % 4 < 2:
+                for key in ('logM1_EE', 'logM1_EL'):  # conformity masses left to their default = the evolved logM1 of this request
+                    t.pop(key, None)
+        pristine = copy.deepcopy(live)
+        zs = [float(z) for z in rng.choice(zgrid, 3, replace=False)]
+        st = dict(tab=0, z=zs[0], velz2kms=float(rng.uniform(50, 200)), origin=None, rsd=bool(s % 2), enable_ranks=bool((s // 2) % 2), Nthread=int(rng.choice([1, 2, 3, 7, 16])), names=list(live), fresh=False)
+        first = dict(st)
+        # decisive randoms for the second redshift on the first tables
+        etr = hodref.evolved(pristine, zs[1])
+        ce = ref.cent_markers(tabs[0][0], etr)
+        nplant = plant(rng, tabs[0][0]['hrandoms'], ce)
+        keepc, _ = hodref.decide(tabs[0][0]['hrandoms'], ce)
+        nplant += plant(rng, tabs[0][1]['prandoms'], ref.sat_markers(tabs[0][1], etr, st['enable_ranks'], keepc[tabs[0][1]['pinds']]))
+        for r in (tabs[0][0]['hrandoms'], tabs[0][1]['prandoms']):
+            # a random of exactly 0 is only decisive while the first slice is non-empty; here tracers come and go, so none are kept (the single-request cases have them)
+            r[r == 0.0] = rng.random(int((r == 0.0).sum())) * 0.5 + 0.25
+        steps = ['other z', 'other z', 'other tables', 'equal fresh dicts, other z', 'value edited in place', 'tracer dropped', 'flags toggled']
+        steps = ['first'] + [steps[i] for i in rng.permutation(len(steps))][: 5 + s % 3] + ['first request again']
+        edited = None
+        outcomes = []
+        for j, step in enumerate(steps):
+            if edited is not None:
+                # the edit lasts for one request; the same objects are restored in place
+                t, key, old = edited
+                live[t][key] = pristine[t][key] = old
+                edited = None
+            st['names'] = list(live)
+            st['fresh'] = False
+            if step == 'other z':
+                st['z'] = zs[1] if st['z'] != zs[1] else zs[2 * int(rng.integers(0, 2))]
+            elif step == 'other tables':
+                st['tab'] = 1 - st['tab']
+            elif step == 'equal fresh dicts, other z':
+                st['fresh'] = True
+                st['z'] = zs[2] if st['z'] != zs[2] else zs[0]
+            elif step == 'value edited in place':
+                t = str(rng.choice(list(live)))
+                key = str(rng.choice(['logM_cut', 'logM1', 'sigma', 'alpha_s', 'logM_cut_pr', 'z_pivot']))
+                edited = (t, key, live[t][key])
+                live[t][key] = pristine[t][key] = live[t][key] + {'sigma': 0.2, 'alpha_s': -0.3, 'logM_cut_pr': -1.1, 'z_pivot': 0.6}.get(key, 0.4)
+            elif step == 'tracer dropped':
+                names = list(live)
+                st['names'] = names if len(names) == 1 else [n for n in names if n != names[int(rng.integers(0, len(names)))]]
+            elif step == 'flags toggled':
+                st.update(rsd=not st['rsd'], enable_ranks=bool(rng.integers(0, 2)), Nthread=int(rng.choice([1, 2, 3, 7, 16])), velz2kms=float(rng.uniform(50, 200)),
+                          origin=None if st['origin'] is not None else np.array([-990.0, -830.0, -1100.0]))
+            elif step == 'first request again':
+                st = dict(first)
+            halo, part = tabs[st['tab']]
+            params = dict(z=st['z'], velz2kms=st['velz2kms'], Lbox=lbox, origin=st['origin'], Mpart=2.1e9, chunk=-1)
+            passed = {n: (dict(live[n]) if st['fresh'] else live[n]) for n in st['names']}
+            want = {n: copy.deepcopy(pristine[n]) for n in st['names']}
+            desc = dict(family='call history', sequence=s, request=j, step=step, history=steps[:j], z=st['z'], tables=st['tab'], H=len(halo['hmass']), P=len(part['pinds']), tracers=st['names'], rsd=st['rsd'],
+                        enable_ranks=st['enable_ranks'], origin=None if st['origin'] is None else st['origin'].tolist(), Nthread=st['Nthread'], Lbox=lbox)
+            run.progress(desc)
+            run.ev()
+            core.poison_prime()
+            with warnings.catch_warnings():
+                warnings.simplefilter('ignore')
+                got = GH.gen_gal_cat(halo, part, passed, params, Nthread=st['Nthread'], enable_ranks=st['enable_ranks'], rsd=st['rsd'], verbose=False)
+            run.count('call_history_requests')
+            exp, info = hodref.reference_catalog(ref, halo, part, want, params, st['enable_ranks'], st['rsd'])
+            if info['ambc'].any() or info['ambs'].any():
+                run.count('cases_with_ambiguous_randoms_skipped')
+                continue
+            outcomes.append((st['tab'], tuple(st['names']), tuple(tuple(exp[n]['id'].tolist()) for n in st['names'])))
+            if compare_catalog(run, got, exp, desc, lbox, key_prefix='hod-call-history'):
+                break
+        # non-trivial: the requests of the sequence really call for different catalogues (>= 3 distinct expected ones, galaxies in them)
+        if len(set(outcomes)) >= 3 and nplant >= 1 and max((sum(len(i) for i in o[2]) for o in outcomes), default=0) >= 2:
+            run.nt(('history', s))
+        run.count('call_history_sequences')
+        if run.too_many():
+            return
 
 
 def replay(run, data):
